@@ -9,7 +9,9 @@ RULE = (
     "stores of 1..10 traces (1..9 spans each, random parent arrays) under "
     "1..5 workflow names (drawn from a pool with names equal up to letter "
     "case, prefixes of each other, non-ASCII; names and trace ids chosen so "
-    "that lexicographic and insertion orders disagree), spans ingested in a drawn interleaved "
+    "that lexicographic and insertion orders disagree; in a quarter of the "
+    "stores with >=2 names some trace id occurs under two names - ids are "
+    "unique per workflow only), spans ingested in a drawn interleaved "
     "order; streamed with every batch size (yield_per window) in "
     "{1,2,3,7,1000}, without filter, with filter_job_names, with a "
     "job_name_to_job_ids_map (unique-graph style), or both. The stream is "
@@ -23,8 +25,8 @@ RULE = (
     "out, each with all its spans. Non-trivial: >=2 names and some trace larger than the batch "
     "size. Distinct by serialised case.")
 ASSUMPTIONS = [
-    "store is clean: all spans of a trace carry one workflow name, parents "
-    "exist, ids unique",
+    "store is clean: all spans of a trace (workflow name, trace id) carry "
+    "that name, parents exist, span ids unique",
     "consumer materialises each trace before advancing the outer iterators "
     "(lazy groupby cannot support anything else)",
 ]
@@ -38,9 +40,9 @@ def spans_of(case):
     for ti, (name, jid, parents, types) in enumerate(case["traces"]):
         for k, p in enumerate(parents):
             out.append(dict(
-                event_id=f"{jid}-s{k}",
+                event_id=f"{jid}-{ti}s{k}",
                 parent=("ghost-" + jid if (ti, k) in ghosts and k > 0 else
-                        None if p is None else f"{jid}-s{p}"),
+                        None if p is None else f"{jid}-{ti}s{p}"),
                 typ=types[k], job_id=jid, name=name,
                 start=1000 * ti + k, end=1000 * ti + k + 3))
     order = case.get("order")
@@ -98,7 +100,8 @@ def check_case(case):
                             raise Violation(
                                 f"{label}: trace {jid} yielded twice under {name}")
                         for n2, d in got.items():
-                            if n2 != name and jid in d:
+                            if n2 != name and jid in d and \
+                                    jid not in want.get(name, {}):
                                 raise Violation(
                                     f"{label}: trace {jid} under {n2} and {name}")
                         got[name][jid] = evs
@@ -156,7 +159,7 @@ def check_sequencing(case):
         ids = {x["event_id"] for x in ss}
         if all(x["parent"] is None or x["parent"] in ids for x in ss) and \
                 sum(1 for x in ss if x["parent"] is None) == 1:
-            want[jid] = ids
+            want[(name, jid)] = ids
     events = [store.otel_event(s["event_id"], s["parent"], s["typ"],
                                s["job_id"], s["name"], s["start"], s["end"])
               for s in spans]
@@ -170,7 +173,7 @@ def check_sequencing(case):
                     evs = list(job)
                     if not evs:
                         continue
-                    jid = evs[0]["jobId"]
+                    jid = (name, evs[0]["jobId"])
                     if jid in got:
                         raise Violation(f"sequencing: trace {jid} twice")
                     got[jid] = {e["eventId"] for e in evs}
@@ -203,6 +206,9 @@ def classify(case):
     classes = [f"names={len(names)}"]
     if len({n.lower() for n in names}) < len(names):
         classes.append("names_equal_ignoring_case")
+    ids = [t[1] for t in case["traces"]]
+    if len(set(ids)) < len(ids):
+        classes.append("trace_id_shared_by_two_workflows")
     if case.get("ghost"):
         classes.append("trace_with_missing_parent")
     if case.get("filter_names"):
@@ -240,6 +246,16 @@ def case_strategy():
             jid = draw(st.sampled_from(["job", "j", "T"])) + str((ti * 7) % 11)
             jid = f"{jid}_{ti}"
             traces.append([name, jid, parents, types])
+        if nn >= 2 and draw(st.integers(0, 3)) == 0:
+            # trace ids are unique per workflow only (the filter pairs names
+            # with ids): give traces of different names the same id
+            for _ in range(draw(st.integers(1, 3))):
+                a = draw(st.integers(0, nt - 1))
+                b = draw(st.integers(0, nt - 1))
+                if traces[a][0] != traces[b][0] and not any(
+                        t[0] == traces[b][0] and t[1] == traces[a][1]
+                        for t in traces):
+                    traces[b][1] = traces[a][1]
         total = sum(len(t[2]) for t in traces)
         ghost = []
         if draw(st.integers(0, 3)) == 0:
